@@ -175,7 +175,13 @@ class Run(object):
     T0 = vloop.EPOCH
     addr = self.addrs[0]
     # down periods of endpoint 0, from environment facts only
-    faults = sorted(t for (t, a, cid) in self.net.fault_log if a == addr)
+    def stale(t, cid):
+      # a fault seen on a connection (attempt) that is older than a connection to the same endpoint which was established later
+      # and is still healthy says nothing about the endpoint now: it does not start a down period
+      return any(c.id > cid and c.addr == addr and c.established_at is not None and c.established_at <= t and
+                 (c.first_fault_time is None or c.first_fault_time > t) and not c.reset and not c.eof
+                 for c in self.net.conns)
+    faults = sorted(t for (t, a, cid) in self.net.fault_log if a == addr and not stale(t, cid))
     stalls = sorted(t for (t, a, cid, out) in self.net.connect_log if a == addr and out == 'stall')
     oks = sorted(t for (t, a, cid, out) in self.net.connect_log if a == addr and out == 'ok')
     attempts = sorted((t, out) for (t, a, cid, out) in self.net.connect_log if a == addr)
@@ -218,9 +224,28 @@ class Run(object):
              % (c['t'] - T0, addr[0], addr[1], inside[0][0] - T0, ('+%.2f' % (inside[0][1] - T0)) if inside[0][1] < self.horizon else 'end',
                 c['outcome'], ('%.4f' % dur) if dur is not None else 'never'), outcome=c['outcome'])
       break
+    # fail-fast is for an endpoint whose connection is down: once a call has been served again, no later call may be failed fast
+    # unless the client has seen a new fault in between (single-endpoint histories: every served call went to this endpoint)
+    if periods_for_calls is periods and p['endpoints'] == 1:
+      served = sorted(c['done_t'] for c in self.calls if c['outcome'] == 'ok' and c['done_t'] is not None)
+      for c in self.calls:
+        if c['outcome'] != 'FailedFastError' or (self.closed_at is not None and c['t'] >= self.closed_at):
+          continue
+        before = [t for t in served if t <= c['t'] - EPS]
+        if not before or any(before[-1] - 1.0 < f <= c['t'] + EPS for f in faults):
+          continue       # nothing served so far, or a fault was seen since (or just before) the last served call
+        self.v('C09.fail-fast-while-up', 'request issued at +%.2f was failed fast although %s:%d had served a call at +%.2f and the client '
+               'has seen no fault of a current connection since (down periods %r)'
+               % (c['t'] - T0, addr[0], addr[1], before[-1] - T0, [(round(a - T0, 2), round(b - T0, 2)) for (a, b) in periods]))
+        break
     # reconnection attempts while down: growing gaps, capped
     for (a, b) in periods:
-      ts = [t for (t, out) in attempts if a - EPS <= t <= b + EPS]
+      ts = []
+      for (t, out) in attempts:
+        if a - EPS <= t <= b + EPS:
+          ts.append(t)
+          if out == 'ok':
+            break        # the attempt that succeeded ends the series; later connects are ordinary traffic (the pool's next connection)
       if self.closed_at is not None:
         ts = [t for t in ts if t <= self.closed_at]
       gaps = [round(ts[i + 1] - ts[i], 6) for i in range(len(ts) - 1)]
@@ -326,6 +351,12 @@ def histories(tier):
         for up in ((1500.0, 3000.0) if tier == 'quick' else (900.0, 1500.0, 2100.0, 3000.0, 5400.0, 9000.0)):
           out.append({'stack': stack, 'endpoints': n, 'down_at': 2.25, 'mode': mode, 'up_at': up + 0.0125, 'horizon': up + 140,
                       'traffic_period': 7.0})
+    # packets dropped (connects hang until the kernel gives up after 20 s) while the pool is opening a second connection; the endpoint
+    # is reachable again before that connect attempt times out
+    for n in (1, 2):
+      for up in ((6.0, 12.0, 18.0) if tier == 'quick' else (4.0, 6.0, 9.0, 12.0, 15.0, 18.0, 21.0, 24.0)):
+        out.append({'stack': stack, 'endpoints': n, 'concurrency': 2, 'reply_delay': 0.9, 'timeout': 2.0025, 'mode': 'stall',
+                    'down_at': 2.25, 'up_at': up + 0.0125, 'horizon': 90})
     # two members down with overlap, recovering in either order, two concurrent calls per second
     pts = [6.0, 9.0, 14.0, 22.0, 30.0] if tier == 'quick' else [6.0 + 2.5 * i for i in range(14)]
     for (da, db) in ((2.25, 4.25), (4.25, 2.25)):
